@@ -38,9 +38,15 @@ Proof. unfold a_array_shape. destruct (pixel_shape_ a); reflexivity. Qed.
 Theorem pixel_shape_is_stored (a : api) : a_pixel_shape a = Ok (pixel_shape_ a).
 Proof. reflexivity. Qed.
 
+(* (after fix 'array_shape validates its length': the setter used to store any reversed value unchecked, so that a pixel shape of
+   the wrong length could be stored through it; `shape_ok_after_any_history` below was not provable then) *)
 Theorem set_array_shape_spec (a : api) v :
-  a_set_array_shape a v = MOk (set_pixel_shape a (option_map (@rev Z) v)).
-Proof. unfold a_set_array_shape. destruct v; reflexivity. Qed.
+  a_set_array_shape a v =
+  match v with
+  | None => MOk (set_pixel_shape a None)
+  | Some l => if zlen l =? naxes_in a then MOk (set_pixel_shape a (Some (rev l))) else MErr a ValueError
+  end.
+Proof. unfold a_set_array_shape. destruct v as [l|]; [|reflexivity]. destruct (zlen l =? naxes_in a); reflexivity. Qed.
 
 Theorem set_pixel_shape_spec (a : api) v :
   a_set_pixel_shape a v =
@@ -67,7 +73,7 @@ Proof.
   fold (run_sops ops (st_of (step_sop a o))). rewrite IH.
   destruct o as [v|v]; cbn [step_sop].
   - rewrite set_pixel_shape_spec. destruct v as [l|]; [destruct (zlen l =? naxes_in a)|]; reflexivity.
-  - rewrite set_array_shape_spec. reflexivity.
+  - rewrite set_array_shape_spec. destruct v as [l|]; [destruct (zlen l =? naxes_in a)|]; reflexivity.
 Qed.
 
 (* a stored shape always has the right length (given the initial one does) *)
@@ -78,11 +84,33 @@ Proof.
   destruct (zlen l =? naxes_in a) eqn:E; cbn [st_of]; [|exact H]. unfold shape_ok. cbn. lia.
 Qed.
 
-Theorem last_array_shape_wins a v : a_array_shape (st_of (a_set_array_shape a v)) = Ok v.
+Lemma zlen_rev (l : list Z) : zlen (rev l) = zlen l.
+Proof. unfold zlen. now rewrite rev_length. Qed.
+
+Theorem set_array_shape_keeps_ok a v : shape_ok a -> shape_ok (st_of (a_set_array_shape a v)).
 Proof.
-  rewrite set_array_shape_spec, array_shape_is_rev. cbn [st_of set_pixel_shape pixel_shape_].
-  destruct v as [l|]; cbn [option_map]; [now rewrite rev_involutive|reflexivity].
+  intros H. rewrite set_array_shape_spec. destruct v as [l|]; [|exact I].
+  destruct (zlen l =? naxes_in a) eqn:E; cbn [st_of]; [|exact H]. unfold shape_ok. cbn. rewrite zlen_rev. lia.
 Qed.
+
+(* whichever setter is used, in whatever order and with whatever (also rejected) values: the stored shape has one entry per pixel axis *)
+Theorem shape_ok_after_any_history ops : forall a, shape_ok a -> shape_ok (run_sops ops a).
+Proof.
+  induction ops as [|o ops IH]; intros a H; cbn [run_sops fold_left]; [exact H|].
+  fold (run_sops ops (st_of (step_sop a o))). apply IH.
+  destruct o as [v|v]; cbn [step_sop]; [now apply set_pixel_shape_keeps_ok | now apply set_array_shape_keeps_ok].
+Qed.
+
+(* an accepted assignment of either property reads back through array_shape as assigned *)
+Theorem last_array_shape_wins a v :
+  match v with Some l => zlen l = naxes_in a | None => True end -> a_array_shape (st_of (a_set_array_shape a v)) = Ok v.
+Proof.
+  intros Hl. rewrite set_array_shape_spec, array_shape_is_rev. destruct v as [l|]; [|reflexivity].
+  replace (zlen l =? naxes_in a) with true by lia. cbn [st_of set_pixel_shape pixel_shape_ option_map]. now rewrite rev_involutive.
+Qed.
+
+Theorem array_shape_wrong_len_rejected a l : zlen l <> naxes_in a -> a_set_array_shape a (Some l) = MErr a ValueError.
+Proof. intros H. rewrite set_array_shape_spec. replace (zlen l =? naxes_in a) with false by lia. reflexivity. Qed.
 
 Theorem pixel_shape_wrong_len_rejected a l : zlen l <> naxes_in a -> a_set_pixel_shape a (Some l) = MErr a ValueError.
 Proof. intros H. rewrite set_pixel_shape_spec. replace (zlen l =? naxes_in a) with false by lia. reflexivity. Qed.
@@ -101,8 +129,14 @@ Proof. exact world_to_array_index_spec. Qed.
 Theorem C13_array_shape_after_any_history : forall ops a,
   a_array_shape (run_sops ops a) = Ok (option_map (@rev Z) (pixel_shape_ (run_sops ops a))).
 Proof. exact array_shape_after_any_history. Qed.
-Theorem C13_last_array_shape_wins : forall a v, a_array_shape (st_of (a_set_array_shape a v)) = Ok v.
+Theorem C13_last_array_shape_wins : forall a v,
+  match v with Some l => zlen l = naxes_in a | None => True end -> a_array_shape (st_of (a_set_array_shape a v)) = Ok v.
 Proof. exact last_array_shape_wins. Qed.
+Theorem C13_array_shape_wrong_len_rejected : forall a l,
+  zlen l <> naxes_in a -> a_set_array_shape a (Some l) = MErr a ValueError.
+Proof. exact array_shape_wrong_len_rejected. Qed.
+Theorem C13_shape_ok_after_any_history : forall ops a, shape_ok a -> shape_ok (run_sops ops a).
+Proof. exact shape_ok_after_any_history. Qed.
 Theorem C13_pixel_shape_wrong_len_rejected : forall a l,
   zlen l <> naxes_in a -> a_set_pixel_shape a (Some l) = MErr a ValueError.
 Proof. exact pixel_shape_wrong_len_rejected. Qed.
@@ -123,6 +157,8 @@ Print Assumptions C13_world_to_array_index_values_spec.
 Print Assumptions C13_world_to_array_index_spec.
 Print Assumptions C13_array_shape_after_any_history.
 Print Assumptions C13_last_array_shape_wins.
+Print Assumptions C13_array_shape_wrong_len_rejected.
+Print Assumptions C13_shape_ok_after_any_history.
 Print Assumptions C13_pixel_shape_wrong_len_rejected.
 Print Assumptions C13_set_pixel_shape_spec.
 Print Assumptions C13_nonvacuous.
